@@ -59,6 +59,10 @@ func vC14OptZ(b *big.Int) string {
 	return cSome(vC14Z(b))
 }
 
+var vC14BigSels = []cciptypes.ChainSelector{5009297550715157269, 11344663589394136015, 15971525489660198786, 4949039107694359620,
+	3734403246176062136, 4051577828743386545, 6433500567565415381, 16015286601757825753, 13264668187771770619,
+	1<<64 - 1, 1 << 63, 7}
+
 func TestVerif_C14_pack(t *testing.T) {
 	r := vNewRand(vSeed() + 1403)
 	n := vEnvInt("VERIF_N", 200)
@@ -205,8 +209,15 @@ func TestVerif_C14_cf(t *testing.T) {
 		}
 		dest := cciptypes.ChainSelector(900)
 		chains := []vC14Chain{{sel: dest, f: r.Range(1, 2)}}
+		// half of the cases: production-sized selectors (more than 2^63 apart / cyclic modulo 2^64), so that a subtracting or
+		// truncating comparison of selectors shows (seeded change C10-11)
+		bigSels, bigPerm := r.Chance(1, 2), r.Perm(len(vC14BigSels))
 		for k, ns := 0, r.Range(1, 3); k < ns; k++ {
-			chains = append(chains, vC14Chain{sel: cciptypes.ChainSelector(10 + r.Intn(3) + 10*k), f: r.Range(1, 2)})
+			sel := cciptypes.ChainSelector(10 + r.Intn(3) + 10*k)
+			if bigSels {
+				sel = vC14BigSels[bigPerm[k]]
+			}
+			chains = append(chains, vC14Chain{sel: sel, f: r.Range(1, 2)})
 		}
 		hc := vNewHomeChain()
 		idmap := map[commontypes.OracleID]libocrtypes.PeerID{}
